@@ -142,6 +142,7 @@ var lexical = []string{
 	"string()", "string(1)", "number()", "number(1)", "boolean(1)", "boolean()", "count(a)", "count()", "count(1)", "count(a,b)", "sum(a)", "local-name()", "local-name(a)", "last()", "last(1)", "position()", "floor(1)", "ceiling(1.5)", "round(1)", "round()", "string-length('a')", "string-length()", "normalize-space('a')", "normalize-space()", "translate('a','b','c')", "translate('a','b')", "starts-with('a','b')", "contains('a','b')", "substring-before('a','b')", "substring-after('a','b')", "re-match('a','b')", "re-match('a')",
 	"lang('en')", "id('a')", "name()", "name(a)", "namespace-uri()", "nosuch()", "nosuch(1)", "p:f()", "f", "f(", "f)", "f()",
 	"a[1]", "a[1][2]", "a[]", "a[", "a]", "a[[1]]", "a[1]]", "a[b[c]]", "a[b=c]/d", "a[1]/b[2]", ".[1]", "..[1]", "a/.[1]", "a[.]", "a[..]", "a[. = 1]", "1[1]", "'a'[1]", "(1)[1]",
+	"a|-b", "1|-1", "a | b | - -c", "count(a | -b)", "x[y | -z]", "-a|b", "- a | b", "a|(-b)", "a|b-c", "a|-", "(a|-b)",
 	"a|b", "a|", "|a", "a||b", "a|b|c", "a | (b | c)", "(a|b)/c", "1|2", "a|1", "'a'|b", "a|b[1]", "-a|b",
 	"a AND b", "a Or b", "1 DIV 2", "a Mod b", "AND", "a/AND", "AND and Or", "DIV div Mod", "a and b OR c", "Div(1)", "a aNd b",
 	"a and b", "a or b", "a and", "and a", "a andb", "aand b", "a and and", "a div b", "a mod b", "a div", "div", "1 div 2", "1div 2", "1 div2", "1div2", "(1)div(2)", "1 mod(2)", "a=b", "a!=b", "a!b", "a=!b", "a==b", "a<b", "a<=b", "a=<b", "a>b", "a>=b", "a=>b", "a<>b", "a<<b", "a< =b", "a! =b", "1<2<3", "1=2=3", "a+b", "a+", "+a", "a++b", "1+-1", "1-+1", "a,b", ",", "a,", "(a,b)",
